@@ -269,6 +269,17 @@ def _exchange_key_uses(fi):
     return keys
 
 
+def retransmit_removes_exchange(ctx):
+    """In _retransmit every path first takes the exchange out of _active_exchanges (the retransmission arm puts
+    the fresh handle back, the give-up arm leaves the remote without an exchange)."""
+    fi = ctx.prog.func(MM + "_retransmit")
+    cfg = cfg_of(fi)
+    rem = [cfg.loc1(n) for k, n in stores_to(fi.node, "self._active_exchanges", nested=False) if k in ("pop", "delitem")]
+    ctx.ob("when the retransmission timer fires the exchange is taken out of _active_exchanges on every path (a timed-out exchange does not stay 'active')",
+           bool(rem) and cfg.must_pass(cfg.entry, rem), fi, fi.node, construct="_retransmit: removal of the fired exchange",
+           detail="%d removal site(s)" % len(rem))
+
+
 @R.clause("C03.d", "exchange key is (remote, mid) at insertion, retransmission and removal; ACK/RST cancel the stored timer; only RST fires the monitor")
 def d(ctx):
     total = 0
@@ -283,6 +294,7 @@ def d(ctx):
                    detail="key = %s" % stmt_text(resolve_local(fi.node, key)))
     ctx.floor("key uses over the three functions", total, 5)
 
+    retransmit_removes_exchange(ctx)
     # _add_exchange stores (monitor parameter, handle from _schedule_retransmit)
     fi = ctx.prog.func(MM + "_add_exchange")
     p = params(fi)
@@ -484,6 +496,7 @@ def h(ctx):
 
 # ---------------------------------------------------------------------------
 F_MM = "aiocoap/messagemanager.py"
+R.seed("C03.d", F_MM, "        messageerror_monitor, next_retransmission = self._active_exchanges.pop(key)\n        # this should be a no-op", "        messageerror_monitor, next_retransmission = self._active_exchanges[key]\n        # this should be a no-op", "timed-out exchange stays in the table: the remote looks busy forever")
 R.seed("C03.e", F_MM, "        if message.code.is_request():\n            # Responses", "        if message.code.is_request() or message.code is EMPTY:\n            # Responses", "empty ACK/RST with a recently seen message ID dropped as duplicate: retransmissions continue")
 R.seed("C03.f", "aiocoap/tokenmanager.py", "                    lambda request=request, exception=exception: request.add_exception(\n                        exception\n                    )", "                    lambda: request.add_exception(\n                        exception\n                    )", "only the last outstanding request receives the timeout")
 R.seed("C03.b", F_MM, "if retransmission_counter < message.transport_tuning.MAX_RETRANSMIT:", "if retransmission_counter <= message.transport_tuning.MAX_RETRANSMIT:", "one transmission too many")
